@@ -54,6 +54,13 @@ F('analyze_rule', r'constexpr void analyze_rule\(const detail::rule<RequiresCont
    S(r'sizeof\.\.\.\(R\)', 'P_N', name='R9:sizeof...(R)'),
    S(r'gi\.rule_infos\[Nr\] = \{', 'gi.rule_infos[Nr] = (struct rule_info){', name='R16:braced assignment')])
 
+F('string_view_to_term_value', r'constexpr static value_variant_type string_view_to_term_value\(const term_tuple_type& term_tuple, const std::string_view& sv, source_point sp\)',
+  'struct vx_tv string_view_to_term_value(size16_t TermIdx, const struct vx_terms* term_tuple, const struct vx_sv* sv, struct source_point sp)',
+  [S(r'const auto &t = std::get<TermIdx>\(term_tuple\);', 'const struct vx_Term* t = vx_get_term(term_tuple, TermIdx);', name='R13:std::get<TermIdx>(term_tuple)'),
+   S(r'using term_value_type = value_type_t<std::tuple_element_t<TermIdx, term_tuple_type>>;', '', name='R1:alias'),
+   Call(r'return value_variant_type', 'return ({args})', name='R13:variant construction'), Call(r'\bterm_value_type', 'vx_mk_term_value({args})', name='R13:term_value<VT>(v, sp)'),
+   S(r'\bt\.get_ftor\(\)\(sv\)', 'vx_apply_ftor(vx_Term__get_ftor(t), sv)', name='R13:functor call')])
+
 # the contracts of calculate_rule_* are the ones they are proved against in unit state_analyzer (same text, read from that spec)
 _sa = load_spec(os.path.join(HERE, '..', 'contracts', 'state_analyzer.spec'))
 CALC = ''.join('%s\n%s;\n' % (sig, _sa[n]['contract'].strip()) for n, sig in (
